@@ -39,7 +39,7 @@ SortedNames(names) ==   \* alphabetical (byte order), the default column order
 
 DataCells(d) ==
   IF d.kind \in {"cint", "cfloat", "cbool", "cstring"}
-  THEN [i \in 1..d.count |-> d.cells[1]]
+  THEN [i \in 1..d.count |-> Unx(d.cells[1])]
   ELSE d.cells
 DataType(d) ==
   CASE d.kind \in {"int", "cint"} -> "int"
